@@ -346,6 +346,11 @@ def run_shard(rec):
     quick = rec.tier == 'quick'
     rec.deadline = time.time() + (300 if quick else 800)
     idx = 0
+    if rec.shard == 0:
+        # any order of creating the modules: a base re-created under its name (or a failing attempt to)
+        # after it has been extended, then extended again (scenario shared with C11)
+        from . import c11
+        c11.name_reuse(rec)
     for tag, mode, levels in curated_chains():
         for dotted in (False, True):
             for order in ('use-early', 'use-late'):
@@ -374,6 +379,9 @@ def run_shard(rec):
 def replay(rec, rep):
     import ast
     case = rep['case']
+    if case.get('kind') == 'name-reuse':
+        from . import c11
+        return c11.name_reuse(rec)
     grammars = ast.literal_eval(case['grammars_repr'])
     # fresh names so that a stale sys.modules entry cannot interfere
     run_chain(rec, grammars, case.get('ignore_mode', 'none'), case.get('order', 'use-early'), True)
